@@ -192,6 +192,11 @@ def run(ctx):
     from .c08 import fanout_copy_rule
     fanout_copy_rule(ctx, program, "R15.11")
 
+    ctx.rule("R15.12", "the bus/broker/webhook listener a wait shares with other subscribers is released (its un-listen handle called) when the last subscriber "
+             "leaves, and registered once when the first arrives (subscriber-table transitions of Event, Mqtt, Webhook)", floor=24)
+    from .c08 import listener_table
+    listener_table(ctx, program, "R15.12")
+
     ctx.rule("R15.6", "legacy wait_until: a notification received during a pending state_hold is never taken for the hold's expiry (scripted histories)", floor=7)
     from .c05 import legacy_hold_rules
     legacy_hold_rules(ctx, program, "R15.6", uids=(LEGACY,))
